@@ -324,7 +324,7 @@ def gen_row(rng, line: int):
     elif v < 0.17:
         carrier = '\x1a'
     elif v < 0.22:
-        service = rng.choice(['F', 'C', 'G', 'S'])
+        service = rng.choice(['F', 'C', 'G', 'S', '', ' ', 'v', 'u', 'j', 'VU', 'Q'])     # not surface codes
     row = {
         'carrier': carrier, 'fltno': str(rng.randint(1, 9999)), 'depapt': o, 'depctry': AP[o][5] if o in AP else '',
         'arrapt': d, 'arrctry': AP[d][5] if d in AP else '', 'deptim': f'{deptim:04d}', 'arrtim': f'{arrtim:04d}',
@@ -408,6 +408,20 @@ def dst_cases(rng):
                         if ad in ('', 'P'):
                             row['deptim'] = '0000'
                     out.append({'year': year, 'row': row, 'kind': f'dst-switch:{role}'})
+    return out
+
+
+def service_code_cases(rng):
+    """Service codes: only the surface codes V and U are a documented skip reason; a blank code, lower-case letters,
+    other letters and two-letter strings are not — such rows (known airports, distance not stated) must be imported."""
+    out = []
+    for code in ['', ' ', 'v', 'u', 'j', 'VU', 'UV', 'J', 'Q', 'V', 'U', 'V ', '\t']:
+        o, d = rng.sample(['LHR', 'CDG', 'FRA', 'DXB', 'SIN', 'JNB', 'KEF', 'CAI', 'JFK', 'NRT'], 2)
+        start = dt.date(2019, 1, 1) + dt.timedelta(days=rng.randint(0, 340))
+        row = _base_row(o, d, start, start + dt.timedelta(days=rng.randint(1, 9)),
+                        deptim=f'{rng.randint(0, 23):02d}{rng.randint(0, 59):02d}', arrtim='2350', arrday='2')
+        row['service'] = code
+        out.append({'year': 2019, 'row': row, 'kind': 'service-code:' + (repr(code)[1:-1] or 'blank')})
     return out
 
 
@@ -1046,7 +1060,7 @@ def nontrivial(case, orc) -> bool:
     e = orc['expected']
     return bool(e and not orc['reasons'] and len(e['instances']) >= 1
                 and (case['kind'] in ('open-both', 'open-from', 'open-to', 'year-crossing', 'around-dst', 'single-day',
-                                      'leap-boundary') or case['kind'].startswith(('dst-switch', 'open-', 'explicit,', 'misorder-straddle', 'shipped:'))
+                                      'leap-boundary') or case['kind'].startswith(('dst-switch', 'open-', 'explicit,', 'misorder-straddle', 'shipped:', 'service-code'))
                      or e['dropped'] > 0 or e['arrday'] != 0))
 
 
@@ -1137,7 +1151,7 @@ def gen_cases(chk: Check, n: int):
             continue
         out.append(c)
         line += 1
-    fixed = (cross_year_cases(chk.rng) + dst_cases(chk.rng) + misorder_straddle_cases(chk.rng)
+    fixed = (cross_year_cases(chk.rng) + dst_cases(chk.rng) + misorder_straddle_cases(chk.rng) + service_code_cases(chk.rng)
              + odd_and_malformed_cases(chk.rng, chk.n(60, 400)))
     fixed += [dict(c) for c in chk.rng.sample(out, min(12, len(out)))]          # the same row again: a second flight
     chk.rng.shuffle(fixed)
